@@ -25,7 +25,7 @@ def plans(quick):
         ]
     return [
         dict(family=f, opts=opts, checks=[dict(steps=5, slots=2)], gen=dict(steps=4, slots=1), walks=300, walk_len=16,
-             sim=dict(num=2000, depth=18))
+             sim=dict(num=700, depth=18))
         for f in ('chain', 'mounts', 'diamond', 'kinds')
     ]
 
